@@ -38,6 +38,9 @@ UNARY = {"neg": operator.neg, "pos": operator.pos, "abs": operator.abs}
 
 
 def with_none(base, mask):
+    base = list(base)
+    while base and len(base) < len(mask):       # longer vectors than the 4 listed values: cycle them
+        base = base + base
     return [None if m else b for b, m in zip(base, mask)]
 
 
